@@ -16,13 +16,22 @@ pub fn convert_cntrl_flow(
             let cond = Box::from(convert_node(
                 cond,
                 imp,
-                &state.is_last_must_be_ret(false).must_assign_to(None, None),
+                &state
+                    .is_last_must_be_ret(false)
+                    .must_assign_to(None, None)
+                    .is_operand(true),
                 ctx,
             )?);
 
+            let valid_in_ternary = el.as_ref().map_or(false, |el| is_valid_in_ternary(then, el));
+            if state.is_operand && !valid_in_ternary {
+                let msg = "if with blocks or without else as part of an expression";
+                return Err(Box::from(UnimplementedErr::new(ast, msg)));
+            }
+
             match el {
                 Some(el) => {
-                    if ast.ty.is_some() && is_valid_in_ternary(then, el) {
+                    if (ast.ty.is_some() || state.is_operand) && valid_in_ternary {
                         let state = state
                             .is_last_must_be_ret(false)
                             .remove_ret(true)
@@ -51,10 +60,18 @@ pub fn convert_cntrl_flow(
             cond,
             cases: match_cases,
         } => {
+            if state.is_operand {
+                let msg = "match as part of an expression";
+                return Err(Box::from(UnimplementedErr::new(ast, msg)));
+            }
+
             let expr = Box::from(convert_node(
                 cond,
                 imp,
-                &state.is_last_must_be_ret(false).must_assign_to(None, None),
+                &state
+                    .is_last_must_be_ret(false)
+                    .must_assign_to(None, None)
+                    .is_operand(true),
                 ctx,
             )?);
 
